@@ -141,8 +141,10 @@ class C09(EngineProp):
             late = [p for p in obs['points'] if p[0] == 'cancelled' and p[1] > 0]
             if late:
                 fails.append({'signature': 'source-produces-after-cancel:' + k, 'what': '%d signals delivered after cancel()' % late[0][1]})
-            if obs['tasks_running']:
-                fails.append({'signature': 'source-task-survives-cancel:' + k, 'what': '%d feeder tasks still running after cancel()' % obs['tasks_running']})
+            if obs['tasks_running'] or (obs.get('tasks_alive') and any(p[0] == 'cancelled' for p in obs['points'])):
+                fails.append({'signature': 'source-task-survives-cancel:' + k, 'what': '%d feeder tasks still running after cancel()' % max(obs['tasks_running'], obs.get('tasks_alive', 0))})
+            if obs.get('pulled_after_cancel'):
+                fails.append({'signature': 'source-pulled-after-cancel:' + k, 'what': '%d more elements were taken out of the application\'s generator after cancel()' % obs['pulled_after_cancel']})
             if k in ('gen', 'agen') and obs['on_cancel'] != 1 and not obs['errors']:
                 fails.append({'signature': 'on-cancel-callback-count:' + k, 'what': 'on_cancel invoked %d times' % obs['on_cancel']})
         else:
@@ -207,6 +209,12 @@ class C09(EngineProp):
                     raced = any(m.startswith('RECV:PAYLOAD:%d:' % sid) or m.startswith('RECV:ERROR:%d:' % sid) or m in ('LOST', 'STOP') for m in between)
                     if n > 1 or (n != 1 and not raced):
                         fails.append({'signature': 'cancel-frame-count:rrReq', 'what': 'request-response %d cancelled while pending: %d CANCEL frames on stream %d' % (oid, n, sid)})
+                else:
+                    # the awaitable's done-callback never ran although the loop was left to settle after the cancellation: nothing tells the peer
+                    later = [m for m, _ in steps[c0:]]
+                    raced = any(m.startswith('RECV:PAYLOAD:%d:' % sid) or m.startswith('RECV:ERROR:%d:' % sid) or m in ('LOST', 'STOP') for m in later)
+                    if n == 0 and not raced and c0 < len(steps) - 1:
+                        fails.append({'signature': 'cancel-frame-missing:rrReq', 'what': 'request-response %d cancelled while pending: no CANCEL frame on stream %d and the cancellation callback never ran' % (oid, sid)})
         # peer CANCEL stops the producer
         for idx, (m, outs) in enumerate(steps):
             if m.startswith('RECV:CANCEL:'):
